@@ -11,6 +11,7 @@ import ast
 
 from ..core import rule, AnalysisError
 from ..engine import cfg as cfgmod, flow
+from ..engine import pattern as P
 from ..engine.facts import dotted, const, src, walk_func, enclosing_stmt
 from . import skeletons as sk
 from .common import calls, stmt_nodes, param_names
@@ -41,7 +42,7 @@ def single_gateway(ctx):
     hs = [h for t in walk_func(lt) if isinstance(t, ast.Try) for h in t.handlers]
     ok = any(h.type is not None and "TopLevelLookupException" in src(h.type) and any(isinstance(r, ast.Raise) and isinstance(r.exc, ast.Call) and dotted(r.exc.func).endswith("TemplateLookupException") for r in ast.walk(h)) for h in hs)
     ctx.check(ok, "translate", db.where(lt), "TopLevelLookupException is not translated to TemplateLookupException", "unresolvable URI -> TemplateLookupException")
-    nl = [i for i in walk_func(lt) if isinstance(i, ast.If) and "lookup is None" in src(i.test)]
+    nl = [i for i in walk_func(lt) if isinstance(i, ast.If) and P.has(i.test, "$l is None")]
     ok = bool(nl) and any(isinstance(r, ast.Raise) and isinstance(r.exc, ast.Call) and dotted(r.exc.func).endswith("TemplateLookupException") for r in ast.walk(nl[0]))
     ctx.check(ok, "no-lookup", db.where(lt), "a template without a lookup does not raise TemplateLookupException", "no lookup -> TemplateLookupException")
     lk = [s for s in walk_func(lt) if isinstance(s, ast.Assign) and src(s.targets[0]) == "lookup"]
@@ -53,7 +54,7 @@ def single_gateway(ctx):
     # adjust_uri semantics: absolute kept, relative joined to dirname(relativeto)
     au = db.func("lookup.TemplateLookup.adjust_uri")
     t = src(au)
-    ctx.check("uri[0] == '/'" in t and "posixpath.join(posixpath.dirname(relativeto), uri)" in t and "'/' + uri" in t, "adjust_uri.shape", db.where(au), "adjust_uri no longer keeps absolute URIs, joins relative ones to dirname(relativeto), and roots the rest", "absolute kept; relative joined to the caller's directory; else rooted")
+    ctx.check(P.has(au, "$u[0] == '/'") and P.has(au, "posixpath.join(posixpath.dirname($r), $u)") and P.has(au, "'/' + $u"), "adjust_uri.shape", db.where(au), "adjust_uri no longer keeps absolute URIs, joins relative ones to dirname(relativeto), and roots the rest", "absolute kept; relative joined to the caller's directory; else rooted")
 
 
 def _outer(node, g):
@@ -170,7 +171,7 @@ def include_isolation(ctx):
     ctx.require(n >= 3, "namespace constructions not found in write_namespaces")
     # the callable actually executed is what _populate_self_namespace returned
     cs = [s for s in walk_func(inc) if isinstance(s, ast.Assign) and isinstance(s.value, ast.Call) and dotted(s.value.func) == "_populate_self_namespace"]
-    ctx.check(bool(cs) and src(cs[0].targets[0]).replace(" ", "") in ("(callable_,ctx)", "callable_,ctx") and "callable_(ctx, **kwargs)" in src(inc), "include.executes", db.where(inc), "the include does not execute the populated callable on the cleaned context", "callable_(ctx, **kwargs)")
+    ctx.check(P.has(inc, "($f, $c) = _populate_self_namespace($_, $_)") and P.has(inc, "$f($c, **$k)"), "include.executes", db.where(inc), "the include does not execute the populated callable on the cleaned context", "callable_(ctx, **kwargs)")
 
 
 @rule("C07.include-args", min_instances=2)
@@ -181,8 +182,8 @@ def include_args(ctx):
     ifs = [i for i in walk_func(fn) if isinstance(i, ast.If)]
     ctx.require(ifs, "_kwargs_for_include has no condition")
     t = src(ifs[0].test)
-    ctx.check("arg != 'context'" in t and "arg in data" in t and "arg not in kwargs" in t, "condition", db.where(ifs[0]), "context data copied under `%s`: explicit args must win and `context` be excluded" % t, t)
-    ctx.check(src(ifs[0].body[0]) == "kwargs[arg] = data[arg]", "copy", db.where(ifs[0]), "copies %s" % src(ifs[0].body[0]), "kwargs[arg] = data[arg]")
+    ctx.check(P.has(ifs[0].test, "$a != 'context'") and P.has(ifs[0].test, "$a in $d") and P.has(ifs[0].test, "$a not in $k"), "condition", db.where(ifs[0]), "context data copied under `%s`: explicit args must win and `context` be excluded" % t, t)
+    ctx.check(P.has(ifs[0], "$k[$a] = $d[$a]"), "copy", db.where(ifs[0]), "copies %s" % src(ifs[0].body[0]), "kwargs[arg] = data[arg]")
     inc = db.func("runtime._include_file")
     c = [x for x in walk_func(inc) if isinstance(x, ast.Call) and dotted(x.func) == "_kwargs_for_include"]
     ctx.check(bool(c) and src(c[0].args[0]) == "callable_" and src(c[0].args[1]) == "context._data", "source", db.where(inc), "include arguments completed from %s" % (src(c[0]) if c else None), "from the includer's context data, for the callee's signature")
